@@ -183,6 +183,7 @@ func (a *allowed) addTerm(text string) {
 		a.cols[s] = true
 		a.strs[s] = true
 		a.strs[strings.NewReplacer("*", "%", "?", "_").Replace(s)] = true
+		a.strs[translatePattern(s)] = true // escaped wild cards are not translated
 	}
 	if r, ok := new(big.Rat).SetString(un); ok {
 		a.nums = append(a.nums, r)
